@@ -179,6 +179,7 @@ def gen_cases(ctx):
         # imported files import each other, themselves and their own directory: the traversal must still end
         extra = {"inc.yaml": "import: [\"inc.yaml\", \"sub/a.yaml\", \".\"]\ntasks: {inc: {command: [\"true\"]}}\n",
                  "sub/a.yaml": "import: [\"../inc.yaml\", \"a.yaml\"]\ntasks: {suba: {command: [\"true\"]}}\n",
+                 "sub/b.yaml": "tasks: {subb: {command: [\"true\"]}}\n",
                  "e.env": rng.choice(ENV_FILES).decode("latin1"), "a.txt": "x", "b.txt": "y"}
         add("mutated" if mutated else "grammar", fmt, tb, extra)
     for y in YAML_SPECIALS:
